@@ -1900,7 +1900,6 @@ class InCaptionPhase(Phase):
         return self.parser.phases["inBody"].processSpaceCharacters(token)
 
     def startTagTableElement(self, token):
-        self.parser.parseError()
         # XXX Have to duplicate logic here to find out if the tag is ignored
         ignoreEndTag = self.ignoreEndTagCaption()
         self.parser.phase.processEndTag(impliedTagToken("caption"))
@@ -1929,7 +1928,6 @@ class InCaptionPhase(Phase):
             self.parser.parseError()
 
     def endTagTable(self, token):
-        self.parser.parseError()
         ignoreEndTag = self.ignoreEndTagCaption()
         self.parser.phase.processEndTag(impliedTagToken("caption"))
         if not ignoreEndTag:
